@@ -141,6 +141,21 @@ Theorem C31_no_proxy_header_unless_enabled : forall r ca, r_proxy r = false -> p
 Proof. exact no_proxy_no_prefix. Qed.
 Print Assumptions C31_no_proxy_header_unless_enabled.
 
+(* Failover (route with several backends, the leading ones refuse the dial): the stream the serving
+   backend receives after the failed attempts r_failed r equals the stream of a direct connection to
+   it — the configured rewrites are applied once, to the client's original handshake, with the serving
+   backend's host; lite_flow (hence every theorem above) is defined through failover_stream. *)
+Theorem C31_failover_rewrites_once : forall mvh r ca now p h rest,
+  failover_stream mvh r ca now p h rest = lite_backend_stream mvh r ca now p h rest.
+Proof. exact failover_rewrites_once. Qed.
+Print Assumptions C31_failover_rewrites_once.
+
+Theorem C31_failover_status_rewrites_once : forall mvh r ca now p h q,
+  failover_status_stream mvh r ca now p h q =
+  proxy_prefix r ca ++ handshake_frame mvh r ca now (r_cache r) p h ++ frame q.
+Proof. exact failover_status_rewrites_once. Qed.
+Print Assumptions C31_failover_status_rewrites_once.
+
 (* Status pings use the same dialRoute: header, handshake (re-encoded when a rewrite fires or the ping
    cache is on), then the client's status request frame. *)
 Theorem C31_status_ping_stream : forall mvh r ca now p h extra q rest0 rest,
@@ -159,8 +174,8 @@ Definition ex_hs : handshake := mkHs 763 (ex_host ++ fml) 25565 2.
 Definition ex_p : bytes := enc_handshake_payload ex_hs ++ [7; 7].                       (* two left-over bytes *)
 Definition ex_client : endpoint := mkEp [203; 0; 113; 9] 54321.
 Definition ex_backend : endpoint := mkEp [127; 0; 0; 1] 25566.
-Definition r_plain : route := mkRoute true false false false b127 ex_backend.
-Definition r_mvh_shield : route := mkRoute true true true false b127 ex_backend.
+Definition r_plain : route := mkRoute true false false false b127 ex_backend [].
+Definition r_mvh_shield : route := mkRoute true true true false b127 ex_backend [[108;111;99;97;108;104;111;115;116]; b127].
 
 Example C31_nonvacuous_identity :
   frame_ok ex_p /\ dec_handshake_payload ex_p = Some (ex_hs, [7; 7]) /\
@@ -197,3 +212,13 @@ Example C31_nonvacuous_trigger :
   mvh_trigger b127 fml = true /\ mvh_trigger b127 (a_com ++ [0] ++ a_com ++ [0]) = true /\
   mvh_trigger b127 (a_com ++ fml) = false.
 Proof. repeat split; vm_compute; reflexivity. Qed.
+
+(* the failover theorem is not vacuous: one failed attempt before the serving backend, TCPShield
+   address; re-preparing the handshake per attempt (the excluded behaviour) gives a different stream *)
+Example C31_nonvacuous_failover :
+  r_failed fo_route = [b127] /\
+  let p := enc_handshake_payload fo_hs in
+  let '(p', h') := fold_left (eager_step spec_mvh fo_route fo_client 1700000000) (r_failed fo_route) (p, fo_hs) in
+  lite_backend_stream spec_mvh fo_route fo_client 1700000000 p' h' [1;2;3] <>
+  failover_stream spec_mvh fo_route fo_client 1700000000 p fo_hs [1;2;3].
+Proof. split; [reflexivity|exact eager_prepare_differs]. Qed.
